@@ -339,3 +339,8 @@ mut("c18g-update-includes-removed", "C18", AWF, "                if e.data.is_no
 mut("c18g-benign-named-entry", "C18", AWF, "            res.insert(client_id, AwarenessUpdateEntry { clock, json });", "            let entry = AwarenessUpdateEntry { clock, json };\n            res.insert(client_id, entry);", "", kind="benign")
 mut("exclude-break-on-range-before-update", "C06", U, "                        if range.end <= clock_start {\n                            continue;\n                        }", "                        if range.end <= clock_start {\n                            break;\n                        }", "state-vector", also=["C08", "C01"])
 mut("exclude-benign-break-past-update", "C06", U, "                        if range.start >= clock_end {\n                            continue;\n                        }", "                        if range.start >= clock_end {\n                            break;\n                        }", "", kind="benign", also=["C08", "C01"])
+TM = "yrs/src/types/mod.rs"
+mut("weak-flags-unbounded-from-is-root", "C09", TM, "        if !data.quote_start.is_relative() {\n            info |= WEAK_REF_FLAGS_START_UNBOUNDED;", "        if data.quote_start.is_root() {\n            info |= WEAK_REF_FLAGS_START_UNBOUNDED;", "weak-wire", also=["C20"])
+mut("weak-flags-reader-nested-under-root", "C09", TM, "        let start_scope = if is_start_unbounded {\n            if is_parent_root {", "        let start_scope = if is_start_unbounded {\n            if !is_parent_root {", "weak-wire")
+mut("weak-flags-benign-nested-or-root", "C09", TM, "        if !data.quote_start.is_relative() {\n            info |= WEAK_REF_FLAGS_START_UNBOUNDED;", "        let open_start = !data.quote_start.is_relative();\n        if open_start {\n            info |= WEAK_REF_FLAGS_START_UNBOUNDED;", "", kind="benign", also=["C20"])
+mut("weak-flags-benign-root-or-nested", "C09", TM, "        if !data.quote_start.is_relative() {\n            info |= WEAK_REF_FLAGS_START_UNBOUNDED;", "        if data.quote_start.is_root() || data.quote_start.is_nested() {\n            info |= WEAK_REF_FLAGS_START_UNBOUNDED;", "", kind="benign")
